@@ -45,7 +45,7 @@ CHECKS.update({
  'C14': dict(cat='translation_validation', ref='4/C14', tech='per (script, layout): generated _evaluate executed symbolically (z3 arrays, symbolic t, L) against the layout-independent AST reference; concrete symbol-tuple, statement-independence, permutation and fixed-point assertions',
    text='For every program of the pool and every layout of a catalogue of 10 (whitespace at operator/brace/angle/index/parenthesis boundaries, tabs, [0] and [+k] indexes, parenthesise-and-break, comments, blank lines) z3 shows the generated code equivalent to the same reference AST for all cells, t, L - so all layouts are equivalent to each other; symbol names/types/lags/leads across layouts, parse(script) = merge of per-statement parses, permutation and the fixed point of the normal form are concrete program-level assertions.',
    note='Trusted: as C01; renderer self-checked against Python ast per (program, layout). Program and layout dimensions enumerated. Scripts where < and > comparisons could be read as an <error> term are skipped and counted.'),
- 'C15': dict(cat='translation_validation', ref='4/C15', tech='per (script, build variant): the variant class _evaluate executed symbolically and compared by z3 array equality with the AST reference (wrapper converter: store-only-if-positive semantics); concrete attribute / converter bookkeeping assertions',
+ 'C15': dict(cat='translation_validation', ref='4/C15', tech='per (script, build variant): the variant class _evaluate executed symbolically and compared by z3 array equality with the AST reference (wrapper converter: store-only-if-positive semantics; hand-assembled symbol lists: sequential execution of the code of the symbols in list order); concrete attribute / converter bookkeeping assertions',
    text='build_model, exec of build_model_definition text, exec of Model.CODE, typed/untyped templates, identity-on-code and the documented wrapping converter are each shown by z3 to compute the reference semantics for all cells, t, L on every program of the pool, hence to be pairwise identical; class attributes, lags/leads/min_* settings, converter call count and order, verbatim insertion and the empty symbol list are concrete assertions.',
    note='Trusted: as C01. Wrapper converter explored on programs with few joint paths only (one extra fork per equation).'),
  'C20': dict(cat='translation_validation', ref='4/C20', tech='symbolic execution of each Symbol.code in isolation on z3 arrays: LIA check that every access lies on a graph edge, z3 non-interference query for non-edge cells, path-reachability of every edge; concrete comparison of nodes/edges with AST dependency sets',
